@@ -89,7 +89,8 @@ class Engine(EngineBase):
                 "(strategy None/always/never/update/custom, doc_sync default/ByKey(fn)/ByKey(regex)/update/"
                 "NO_SYNC/COPY, recursive, exclude, selection by job/id, check_schema, deep, dry_run, parallel "
                 "False/2/True, entry point Project.sync / sync_projects / Job.sync / sync_jobs), listing order "
-                "permuted, parallel variant under seeded thread interleaving. distinct = (option tuple, conflict "
+                "permuted, parallel variant under seeded thread interleaving; 20% of the C13/C14 scenarios start from "
+                "the debris of an earlier run of the same sync that died at a seeded step (forked clone). distinct = (option tuple, conflict "
                 "classes present, outcome) ; non-trivial = something was copied, merged or refused")
 
     def stubs(self):
@@ -208,6 +209,10 @@ class Engine(EngineBase):
                 "opts": opts, "entry": entry, "pair": pair, "precrash": precrash}
 
     def shrink(self, scenario):
+        if scenario.get("precrash") is not None:
+            c = copy.deepcopy(scenario)
+            c["precrash"] = None
+            yield c
         for side in ("src", "dst"):
             jobs = scenario[side]["jobs"]
             for k in sorted(jobs):
@@ -241,7 +246,7 @@ class Engine(EngineBase):
                 yield c
 
     def sample(self, scenario, result):
-        return {"opts": scenario["opts"], "entry": scenario["entry"],
+        return {"opts": scenario["opts"], "entry": scenario["entry"], "precrash": scenario.get("precrash"),
                 "src_jobs": {k: {"files": v["files"], "doc": v["doc"]} for k, v in scenario["src"]["jobs"].items()},
                 "dst_jobs": {k: {"files": v["files"], "doc": v["doc"]} for k, v in scenario["dst"]["jobs"].items()},
                 "outcome": result.get("outcome")}
